@@ -163,10 +163,70 @@ func c15StockDrivers(ctx *core.Ctx) {
 	})
 }
 
+// c15SameMapSameTree: "exactly the supplied functions" means the functions the map holds at
+// the time of the call. One map object and one tree are used for three renders: as is, after one
+// function was replaced in place, after one function was deleted in place.
+func c15SameMapSameTree(ctx *core.Ctx) {
+	for _, q := range []string{"a:b", "NOT a:b AND c:d", "a:(x OR y) OR NOT n:[1 TO 5]", "f:w* AND NOT (g:/r/ OR h:>=4)", "+a:b -c:d e:f", `NOT (a:"p q" OR NOT b:1)`} {
+		e, err, ok := parse(ctx, q, "")
+		if !ok || err != nil {
+			continue
+		}
+		nodes := []*expr.Expression{}
+		exprNodes(e, &nodes)
+		present := map[expr.Operator]int{}
+		for _, n := range nodes {
+			present[n.Op]++
+		}
+		ctx.Case("same map, same tree, functions changed in place: "+q, func() {
+			tr := &tracer{structural: true}
+			m := tr.fullMap()
+			b := driver.Base{RenderFNs: m}
+			var out1, out2, out3 string
+			var e1, e2, e3 error
+			if !ctx.Call("Base.Render", func() { out1, e1 = b.Render(e) }) || e1 != nil {
+				return
+			}
+			for _, op := range []expr.Operator{expr.Equals, expr.Not, expr.And, expr.Or, expr.Literal, expr.In, expr.Like, expr.Range, expr.Must} {
+				if present[op] == 0 {
+					continue
+				}
+				calls := 0
+				old := m[op]
+				m[op] = func(l, r string) (string, error) { calls++; return "REPLACED(" + l + "|" + r + ")", nil }
+				if !ctx.Call("Base.Render(after in-place replacement)", func() { out2, e2 = b.Render(e) }) {
+					return
+				}
+				ctx.Count("in_place_replacements", 1)
+				if e2 != nil || calls != present[op] || out2 == out1 {
+					ctx.Violate("c15:in-place-replacement-ignored:"+op.String(), "after replacing the function of %v in the same map, Render(%q) called it %d times for %d nodes and returned %q (before: %q, err %v)", op, q, calls, present[op], out2, out1, e2)
+					return
+				}
+				delete(m, op)
+				if !ctx.Call("Base.Render(after in-place removal)", func() { out3, e3 = b.Render(e) }) {
+					return
+				}
+				if e3 == nil || out3 != "" {
+					ctx.Violate("c15:in-place-removal-ignored:"+op.String(), "after deleting the function of %v from the same map, Render(%q) returns %q, err %v", op, q, out3, e3)
+					return
+				}
+				m[op] = old
+				var out4 string
+				var e4 error
+				if ctx.Call("Base.Render(after restoring)", func() { out4, e4 = b.Render(e) }) && (e4 != nil || out4 != out1) {
+					ctx.Violate("c15:in-place-restore-differs:"+op.String(), "after restoring the function of %v, Render(%q) returns %q (err %v), at first %q", op, q, out4, e4, out1)
+					return
+				}
+			}
+		})
+	}
+}
+
 func (p c15) RunBatch(ctx *core.Ctx, batch int) {
 	mon.Install()
 	if batch%16 == 0 {
 		c15StockDrivers(ctx)
+		c15SameMapSameTree(ctx)
 	}
 	sp := c15Space(ctx.Tier)
 	nEnum := nBatches(sp.Size())
